@@ -22,6 +22,9 @@ type Gen struct {
 	strLits  map[string]string
 	unstable map[string]bool
 	viaUse   map[string]map[string]bool
+	depsOut  string
+	coneFns  map[string][]*ssa.Function
+	coneOf   map[string]map[string]bool // tag -> function names reachable from the tag's roots
 	timeoutS int
 	seed     int
 	verbose  bool
@@ -33,6 +36,8 @@ type Assume struct {
 	seq   int
 	f     string
 	why   string
+	cl    *Clause // the contract clause this assumption instantiates (nil for model facts)
+	owner string  // function whose contract the clause belongs to
 }
 
 type Oblig struct {
@@ -174,6 +179,7 @@ type loopInfo struct {
 	blocks map[*ssa.BasicBlock]bool
 	backs  []*ssa.BasicBlock
 	preSt  *State
+	headSt *State // state at the loop head after the havoc (start of the generic iteration)
 	phiVal map[*ssa.Phi]Val
 }
 
@@ -236,7 +242,16 @@ func (fc *FnCtx) assume(f, why string) {
 		return
 	}
 	fc.seq++
-	fc.assumes = append(fc.assumes, Assume{fc.curBlock, fc.seq, f, why})
+	fc.assumes = append(fc.assumes, Assume{fc.curBlock, fc.seq, f, why, nil, ""})
+}
+
+// assumeC: an assumption that instantiates a contract clause (recorded for the proof-dependency audit).
+func (fc *FnCtx) assumeC(f, why string, cl *Clause, owner string) {
+	if f == "true" || fc.suppress > 0 {
+		return
+	}
+	fc.seq++
+	fc.assumes = append(fc.assumes, Assume{fc.curBlock, fc.seq, f, why, cl, owner})
 }
 
 func (fc *FnCtx) note(a string) { fc.assumpt[a] = true }
